@@ -301,6 +301,9 @@ pub struct MCfg {
     /// "read everything" as an operation, and placements / cancels applied to an asset's book
     /// directly through get_order_book_mut
     pub observe_and_book_mut: bool,
+    /// price alphabet at an end of the price axis: 1 = {0, one tick} (bid level walks pass zero),
+    /// 2 = the two highest grid prices (ask level walks pass 2^32-1)
+    pub edge: u8,
 }
 
 fn alphabet<const A: usize>(cfg: &MCfg, shadows: &[Snap], trading: bool) -> Vec<MStep> {
@@ -308,7 +311,12 @@ fn alphabet<const A: usize>(cfg: &MCfg, shadows: &[Snap], trading: bool) -> Vec<
     let routes: &[bool] = if cfg.events { &[false, true] } else { &[false] };
     for a in 0..A {
         let tick = TICKS[a % 4];
-        let prices = [2 * tick, 3 * tick];
+        let top = u32::MAX / tick * tick;
+        let prices = match cfg.edge {
+            1 => [0, tick],
+            2 => [top - tick, top],
+            _ => [2 * tick, 3 * tick],
+        };
         let vols: &[u32] = if cfg.two_vols { &[1, 2] } else { &[2] };
         for bid in [true, false] {
             for p in prices {
@@ -607,56 +615,62 @@ fn absorb(out: &mut Outcome, label: &str, assets: usize, levels: usize, depth: u
 
 /// C14, market level
 pub fn c14_market_part(out: &mut Outcome, t: bool) {
-    let full = MCfg { depth: if t { 5 } else { 4 }, reload_modes: vec![], events: false, toggles: true, modify: true, create_place: false, offgrid: true, two_vols: false, asset_toggles: false, zero_vols: false, observe_and_book_mut: false };
+    let full = MCfg { depth: if t { 5 } else { 4 }, reload_modes: vec![], events: false, toggles: true, modify: true, create_place: false, offgrid: true, two_vols: false, asset_toggles: false, zero_vols: false, observe_and_book_mut: false, edge: 0 };
     absorb(out, "Market<2>: ops x assets, modify, toggles, off-grid", 2, 3, full.depth, run_market::<2, 3>(&full), "market");
-    let ev = MCfg { depth: if t { 4 } else { 3 }, reload_modes: vec![], events: true, toggles: true, modify: true, create_place: true, offgrid: true, two_vols: true, asset_toggles: false, zero_vols: false, observe_and_book_mut: false };
+    let ev = MCfg { depth: if t { 4 } else { 3 }, reload_modes: vec![], events: true, toggles: true, modify: true, create_place: true, offgrid: true, two_vols: true, asset_toggles: false, zero_vols: false, observe_and_book_mut: false, edge: 0 };
     absorb(out, "Market<2>: + event route, create/place, two volumes", 2, 3, ev.depth, run_market::<2, 3>(&ev), "market");
-    let a1 = MCfg { depth: if t { 5 } else { 4 }, reload_modes: vec![], events: false, toggles: true, modify: true, create_place: true, offgrid: false, two_vols: true, asset_toggles: false, zero_vols: false, observe_and_book_mut: false };
+    let a1 = MCfg { depth: if t { 5 } else { 4 }, reload_modes: vec![], events: false, toggles: true, modify: true, create_place: true, offgrid: false, two_vols: true, asset_toggles: false, zero_vols: false, observe_and_book_mut: false, edge: 0 };
     absorb(out, "Market<1>", 1, 3, a1.depth, run_market::<1, 3>(&a1), "market");
-    let a3 = MCfg { depth: if t { 5 } else { 4 }, reload_modes: vec![], events: false, toggles: true, modify: false, create_place: false, offgrid: true, two_vols: false, asset_toggles: false, zero_vols: false, observe_and_book_mut: false };
+    let a3 = MCfg { depth: if t { 5 } else { 4 }, reload_modes: vec![], events: false, toggles: true, modify: false, create_place: false, offgrid: true, two_vols: false, asset_toggles: false, zero_vols: false, observe_and_book_mut: false, edge: 0 };
     absorb(out, "Market<3>: three ticks", 3, 2, a3.depth, run_market::<3, 2>(&a3), "market");
-    let z = MCfg { depth: if t { 5 } else { 4 }, reload_modes: vec![], events: false, toggles: false, modify: true, create_place: false, offgrid: false, two_vols: false, asset_toggles: false, zero_vols: true, observe_and_book_mut: false };
+    let z = MCfg { depth: if t { 5 } else { 4 }, reload_modes: vec![], events: false, toggles: false, modify: true, create_place: false, offgrid: false, two_vols: false, asset_toggles: false, zero_vols: true, observe_and_book_mut: false, edge: 0 };
     absorb(out, "Market<2>: zero-volume placements and modifications", 2, 3, z.depth, run_market::<2, 3>(&z), "market");
-    let at = MCfg { depth: if t { 4 } else { 3 }, reload_modes: vec![], events: false, toggles: true, modify: true, create_place: false, offgrid: false, two_vols: false, asset_toggles: true, zero_vols: false, observe_and_book_mut: false };
+    let at = MCfg { depth: if t { 4 } else { 3 }, reload_modes: vec![], events: false, toggles: true, modify: true, create_place: false, offgrid: false, two_vols: false, asset_toggles: true, zero_vols: false, observe_and_book_mut: false, edge: 0 };
     absorb(out, "Market<3>: per-asset toggles through get_order_book_mut", 3, 2, at.depth, run_market::<3, 2>(&at), "market");
-    let many = MCfg { depth: if t { 3 } else { 2 }, reload_modes: vec![], events: false, toggles: true, modify: true, create_place: false, offgrid: false, two_vols: false, asset_toggles: true, zero_vols: false, observe_and_book_mut: false };
+    let many = MCfg { depth: if t { 3 } else { 2 }, reload_modes: vec![], events: false, toggles: true, modify: true, create_place: false, offgrid: false, two_vols: false, asset_toggles: true, zero_vols: false, observe_and_book_mut: false, edge: 0 };
     absorb(out, "Market<12,2>: two-digit asset counts", 12, 2, many.depth, run_market::<12, 2>(&many), "market");
     // reads at chosen moments (histories are otherwise replayed without a single query in between)
     // and mutations that bypass the market's own entry points
-    let ob = MCfg { depth: if t { 5 } else { 4 }, reload_modes: vec![], events: false, toggles: false, modify: false, create_place: false, offgrid: false, two_vols: false, asset_toggles: false, zero_vols: false, observe_and_book_mut: true };
+    let ob = MCfg { depth: if t { 5 } else { 4 }, reload_modes: vec![], events: false, toggles: false, modify: false, create_place: false, offgrid: false, two_vols: false, asset_toggles: false, zero_vols: false, observe_and_book_mut: true, edge: 0 };
     absorb(out, "Market<2>: reading as an operation, placements and cancels through get_order_book_mut", 2, 3, ob.depth, run_market::<2, 3>(&ob), "market");
-    let ob3 = MCfg { depth: if t { 4 } else { 3 }, reload_modes: vec![0], events: false, toggles: true, modify: true, create_place: false, offgrid: false, two_vols: false, asset_toggles: false, zero_vols: false, observe_and_book_mut: true };
+    let ob3 = MCfg { depth: if t { 4 } else { 3 }, reload_modes: vec![0], events: false, toggles: true, modify: true, create_place: false, offgrid: false, two_vols: false, asset_toggles: false, zero_vols: false, observe_and_book_mut: true, edge: 0 };
     absorb(out, "Market<3,2>: reading as an operation, get_order_book_mut, modify, reload", 3, 2, ob3.depth, run_market::<3, 2>(&ob3), "market");
-    let a4 = MCfg { depth: if t { 4 } else { 3 }, reload_modes: vec![], events: false, toggles: true, modify: true, create_place: false, offgrid: true, two_vols: false, asset_toggles: false, zero_vols: false, observe_and_book_mut: false };
+    let a4 = MCfg { depth: if t { 4 } else { 3 }, reload_modes: vec![], events: false, toggles: true, modify: true, create_place: false, offgrid: true, two_vols: false, asset_toggles: false, zero_vols: false, observe_and_book_mut: false, edge: 0 };
     absorb(out, "Market<4>: four ticks", 4, 3, a4.depth, run_market::<4, 3>(&a4), "market");
+    // quotes at the ends of the price axis (limit prices 0 and one tick; the two highest grid prices): the
+    // per-asset level walks of the all-asset queries pass 0 / 2^32-1
+    for edge in [1u8, 2] {
+        let e = MCfg { depth: if t { 4 } else { 3 }, reload_modes: vec![], events: false, toggles: true, modify: true, create_place: false, offgrid: false, two_vols: true, asset_toggles: false, zero_vols: false, observe_and_book_mut: false, edge };
+        absorb(out, if edge == 1 { "Market<3,3> ticks 1,2,3: limit prices 0 and one tick" } else { "Market<3,3> ticks 1,2,3: the two highest grid prices" }, 3, 3, e.depth, run_market::<3, 3>(&e), "market");
+    }
 }
 
 /// C12, market level: on/off-grid creations through the market, reads at chosen moments and
 /// mutations through get_order_book_mut: every all-asset query (published levels included) must
 /// equal the stand-alone books' after every operation
 pub fn c12_market_part(out: &mut Outcome, t: bool) {
-    let c = MCfg { depth: if t { 5 } else { 4 }, reload_modes: vec![], events: false, toggles: false, modify: false, create_place: false, offgrid: true, two_vols: false, asset_toggles: false, zero_vols: false, observe_and_book_mut: true };
+    let c = MCfg { depth: if t { 5 } else { 4 }, reload_modes: vec![], events: false, toggles: false, modify: false, create_place: false, offgrid: true, two_vols: false, asset_toggles: false, zero_vols: false, observe_and_book_mut: true, edge: 0 };
     absorb(out, "Market<2,3> ticks 1,2: on/off-grid creations, reading as an operation, get_order_book_mut", 2, 3, c.depth, run_market::<2, 3>(&c), "market");
-    let c = MCfg { depth: if t { 4 } else { 3 }, reload_modes: vec![], events: true, toggles: false, modify: true, create_place: true, offgrid: true, two_vols: false, asset_toggles: false, zero_vols: false, observe_and_book_mut: true };
+    let c = MCfg { depth: if t { 4 } else { 3 }, reload_modes: vec![], events: true, toggles: false, modify: true, create_place: true, offgrid: true, two_vols: false, asset_toggles: false, zero_vols: false, observe_and_book_mut: true, edge: 0 };
     absorb(out, "Market<3,2> ticks 1,2,3: + modify, create/place, event route", 3, 2, c.depth, run_market::<3, 2>(&c), "market");
 }
 
 /// C13, market level: market-wide and per-asset trading toggles against stand-alone books
 pub fn c13_market_part(out: &mut Outcome, t: bool) {
-    let c = MCfg { depth: if t { 5 } else { 4 }, reload_modes: vec![], events: false, toggles: false, modify: true, create_place: false, offgrid: false, two_vols: false, asset_toggles: true, zero_vols: false, observe_and_book_mut: false };
+    let c = MCfg { depth: if t { 5 } else { 4 }, reload_modes: vec![], events: false, toggles: false, modify: true, create_place: false, offgrid: false, two_vols: false, asset_toggles: true, zero_vols: false, observe_and_book_mut: false, edge: 0 };
     absorb(out, "Market<2,3>: market-wide and per-asset toggles at every point", 2, 3, c.depth, run_market::<2, 3>(&c), "market");
-    let c = MCfg { depth: if t { 4 } else { 3 }, reload_modes: vec![], events: false, toggles: false, modify: false, create_place: false, offgrid: false, two_vols: false, asset_toggles: true, zero_vols: false, observe_and_book_mut: false };
+    let c = MCfg { depth: if t { 4 } else { 3 }, reload_modes: vec![], events: false, toggles: false, modify: false, create_place: false, offgrid: false, two_vols: false, asset_toggles: true, zero_vols: false, observe_and_book_mut: false, edge: 0 };
     absorb(out, "Market<3,2>: market-wide and per-asset toggles", 3, 2, c.depth, run_market::<3, 2>(&c), "market");
 }
 
 /// C07, multi-asset snapshots: reload as an operation, shadows are never reloaded
 pub fn c07_market_part(out: &mut Outcome, t: bool) {
-    let c2 = MCfg { depth: if t { 5 } else { 4 }, reload_modes: vec![0, 1, 2], events: false, toggles: true, modify: true, create_place: true, offgrid: false, two_vols: false, asset_toggles: false, zero_vols: false, observe_and_book_mut: false };
+    let c2 = MCfg { depth: if t { 5 } else { 4 }, reload_modes: vec![0, 1, 2], events: false, toggles: true, modify: true, create_place: true, offgrid: false, two_vols: false, asset_toggles: false, zero_vols: false, observe_and_book_mut: false, edge: 0 };
     absorb(out, "Market<2,3>: reload (memory/compact/pretty) as an operation", 2, 3, c2.depth, run_market::<2, 3>(&c2), "market-reload");
-    let c3 = MCfg { depth: if t { 4 } else { 3 }, reload_modes: vec![0, 2], events: false, toggles: true, modify: true, create_place: false, offgrid: false, two_vols: false, asset_toggles: false, zero_vols: false, observe_and_book_mut: false };
+    let c3 = MCfg { depth: if t { 4 } else { 3 }, reload_modes: vec![0, 2], events: false, toggles: true, modify: true, create_place: false, offgrid: false, two_vols: false, asset_toggles: false, zero_vols: false, observe_and_book_mut: false, edge: 0 };
     absorb(out, "Market<3,2>: reload as an operation", 3, 2, c3.depth, run_market::<3, 2>(&c3), "market-reload");
     // two-digit asset counts
-    let c12 = MCfg { depth: if t { 3 } else { 2 }, reload_modes: vec![0, 1], events: false, toggles: true, modify: false, create_place: false, offgrid: false, two_vols: false, asset_toggles: false, zero_vols: false, observe_and_book_mut: false };
+    let c12 = MCfg { depth: if t { 3 } else { 2 }, reload_modes: vec![0, 1], events: false, toggles: true, modify: false, create_place: false, offgrid: false, two_vols: false, asset_toggles: false, zero_vols: false, observe_and_book_mut: false, edge: 0 };
     absorb(out, "Market<12,2>: reload as an operation", 12, 2, c12.depth, run_market::<12, 2>(&c12), "market-reload");
     absorb(out, "Market<25,1>: reload as an operation", 25, 1, 2, run_market::<25, 1>(&MCfg { depth: 2, ..c12 }), "market-reload");
 }
